@@ -13,6 +13,7 @@ const (
 	jwtPkg    = "github.com/lestrrat-go/jwx/v2/jwt"
 	jwaPkg    = "github.com/lestrrat-go/jwx/v2/jwa"
 	jwkPkg    = "github.com/lestrrat-go/jwx/v2/jwk"
+	jwePkg    = "github.com/lestrrat-go/jwx/v2/jwe"
 	stoabsPkg = "github.com/nuts-foundation/go-stoabs"
 )
 
@@ -139,7 +140,7 @@ func c06(r *Report) {
 	r.Gate(Gate{ID: "C06.addsingle.exists", Fn: as, Effect: CallEffect(put), Check: CallCheck(Fn(dag, "", "exists"), -1, IsFalse)})
 	r.Gate(Gate{ID: "C06.addsingle.root-unique", Fn: as, Effect: CallEffect(put),
 		Check: CmpCheck("getRoots(lc) == nil", token.EQL, CallV(Fn(dag, "", "getRoots"), -1), NilV(), true),
-		Alt: []Check{CmpCheck("len(Previous()) == 0 is false", token.EQL, LenV(AnyV()), IntV(0), false)}})
+		Alt:   []Check{CmpCheck("len(Previous()) == 0 is false", token.EQL, LenV(AnyV()), IntV(0), false)}})
 	r.Gate(Gate{ID: "C06.addsingle.clock-index", Fn: as, Effect: CallEffect(put), Check: ErrCheck(Fn(dag, "", "indexClockValue"))})
 	r.Gate(Gate{ID: "C06.dag.add.each", Fn: p.Func(dag, "dag", "add"), Effect: SuccessReturn(), Check: ErrCheck(Fn(dag, "dag", "addSingle")), ForEach: true,
 		Skip: []Check{CmpCheck("transaction == nil", token.EQL, AnyV(), NilV(), true)}})
@@ -162,7 +163,7 @@ func c06(r *Report) {
 
 var shelfOwners = map[string]map[string]string{
 	"transactionsShelf": {"(*network/dag.dag).addSingle": "stores the transaction"},
-	"clockShelf": {"(*network/dag.dag).addSingle": "root check reads through the writer", "network/dag.indexClockValue": "clock index"},
-	"metadataShelf": {"(network/dag.dag).setNumberOfTransactions": "counter", "(network/dag.dag).setHead": "head", "(network/dag.dag).setHighestClockValue": "highest clock"},
-	"payloadsShelf": {"(network/dag.payloadStore).writePayload": "payload store"},
+	"clockShelf":        {"(*network/dag.dag).addSingle": "root check reads through the writer", "network/dag.indexClockValue": "clock index"},
+	"metadataShelf":     {"(network/dag.dag).setNumberOfTransactions": "counter", "(network/dag.dag).setHead": "head", "(network/dag.dag).setHighestClockValue": "highest clock"},
+	"payloadsShelf":     {"(network/dag.payloadStore).writePayload": "payload store"},
 }
